@@ -31,46 +31,50 @@ namespace Mesa.Steps
     does not re-bind the name `step` on the instance — calls with any arguments, returning normally or leaving with an
     exception (a `TypeError` of the class chain, a `RuntimeError` raised by user code), assignments to `_user_step`.  Then the next `model.step(*args)` finds the wrapper in the instance `__dict__`, advances `steps` by
     exactly one, the wrapper stays in place, and `steps` equals the number of calls made so far. -/
-theorem C05_increments_exactly_once (h : Hier) (stopAt : Nat) (pre : Option Nat) (ops : List BOp)
+theorem C05_increments_exactly_once (h : Hier) (stopAt : Nat) (pre : Option Nat) (rz : Option Nat) (ops : List BOp)
     (hops : ∀ op ∈ ops, op.rebindsStep = false) (args : List Int) :
-    let o := (Obj.construct h stopAt pre).run ops
+    let o := (Obj.construct h stopAt pre rz).run ops
     (o.call args).obj.inst.steps = o.inst.steps + 1 ∧
     (o.call args).obj.dictStep = some .wrapper ∧
     o.inst.steps = (ops.filter (·.isCall)).length := by
-  have hc := construct_wrapped h stopAt pre
+  have hc := construct_wrapped h stopAt pre rz
   obtain ⟨h1, h2⟩ := run_keeps_wrapper _ hc.1 ops hops
   have := call_wrapped_steps _ h1 args
   exact ⟨this.1, this.2.1, by rw [h2, hc.2.1]; simp⟩
 
 /-- The increment happens before any user code: everything that runs during the call — the step bodies of the class
     chain, or the function the program supplied as `step` / `_user_step` — sees the already incremented counter. -/
-theorem C05_increment_before_user_code (h : Hier) (stopAt : Nat) (pre : Option Nat) (ops : List BOp)
+theorem C05_increment_before_user_code (h : Hier) (stopAt : Nat) (pre : Option Nat) (rz : Option Nat) (ops : List BOp)
     (hops : ∀ op ∈ ops, op.rebindsStep = false) (args : List Int) :
-    let o := (Obj.construct h stopAt pre).run ops
+    let o := (Obj.construct h stopAt pre rz).run ops
     (∀ e ∈ (o.call args).entries, e.steps = o.inst.steps + 1) ∧ (∀ c ∈ (o.call args).fns, c.steps = o.inst.steps + 1) := by
-  have hc := construct_wrapped h stopAt pre
+  have hc := construct_wrapped h stopAt pre rz
   obtain ⟨h1, _⟩ := run_keeps_wrapper _ hc.1 ops hops
   have := call_wrapped_steps _ h1 args
   exact ⟨this.2.2.2.1, this.2.2.2.2⟩
 
 /-- What the wrapper delegates to is what the lookup `self.step` found when `Model.__init__` ran: without an instance
-    attribute the class's own `step` — then the call is exactly `callStep` of the chain model below, whose theorems say
-    which bodies run —, and a function assigned before `super().__init__()` otherwise (called once, arguments unchanged,
+    attribute the class's own `step` — then the call is exactly `callStepR` of the chain model below (`callStep` when no class body
+    raises), whose theorems say which bodies run —, and a function assigned before `super().__init__()` otherwise (called once, arguments unchanged,
     no class body runs). -/
-theorem C05_wrapper_delegates_to_step_captured_at_init (h : Hier) (stopAt : Nat) (pre : Option Nat) (ops : List BOp)
+theorem C05_wrapper_delegates_to_step_captured_at_init (h : Hier) (stopAt : Nat) (pre : Option Nat) (rz : Option Nat)
+    (ops : List BOp)
     (h1 : ∀ op ∈ ops, op.rebindsStep = false) (h2 : ∀ op ∈ ops, ∀ f, op ≠ .setUser f) (args : List Int) :
-    let o := (Obj.construct h stopAt pre).run ops
-    (pre = none → (o.call args).entries = (callStep o.inst args).2.1 ∧ (o.call args).ok = (callStep o.inst args).2.2 ∧
-        (o.call args).obj.inst = (callStep o.inst args).1 ∧ (o.call args).fns = []) ∧
+    let o := (Obj.construct h stopAt pre rz).run ops
+    (pre = none → (o.call args).entries = (callStepR o.inst rz args).2.1 ∧ (o.call args).ok = (callStepR o.inst rz args).2.2 ∧
+        (o.call args).obj.inst = (callStepR o.inst rz args).1 ∧ (o.call args).fns = []) ∧
     (∀ f, pre = some f → (o.call args).entries = [] ∧ (o.call args).fns = [⟨f, o.inst.steps + 1, args⟩] ∧
         (o.call args).ok = !raisesFn f) := by
-  have hc := construct_wrapped h stopAt pre
+  have hc := construct_wrapped h stopAt pre rz
   obtain ⟨hw, _⟩ := run_keeps_wrapper _ hc.1 ops h1
   have hu := run_userStep_of_no_setUser _ hc.1 ops h1 h2
-  rw [hc.2.2] at hu
+  have hrz : ((Obj.construct h stopAt pre rz).run ops).raiser = rz := by rw [run_raiser, hc.2.2.2]
+  rw [hc.2.2.1] at hu
   refine ⟨fun hp => ?_, fun f hp => ?_⟩
   · subst hp
-    exact call_wrapped_chain _ hw hu args
+    have := call_wrapped_chain _ hw hu args
+    rw [hrz] at this
+    exact this
   · subst hp
     exact call_wrapped_fn _ hw f hu args
 
@@ -145,6 +149,43 @@ example : (callStep (Inst.new [⟨true, true, true⟩, ⟨true, true, false⟩, 
 example : ((callStep (Inst.new [⟨true, true, true⟩, ⟨true, true, false⟩, ⟨true, false, true⟩] 9) []).2.1.map (·.depth)) = [0, 1, 2] := by
   decide
 
+/-- **A class body that raises** (review 3, M17: `def step(self): …; raise …` in a class of the hierarchy, possibly between
+    two `super()` levels).  Compare a call on an instance of a class whose body at depth `r` raises (`callStepR`) with the
+    same call were that body not to raise (`callStep`): the counter is incremented once all the same, before any body; the
+    bodies that run are an initial segment of those that would have run; if the chain never reaches depth `r` nothing at all
+    differs; and if it does, exactly the bodies up to and including that one run — no body behind the raiser, although its
+    level may call `super().step()` — and the call does not return normally. -/
+theorem C05_raising_class_body_cuts_the_chain (i : Inst) (r : Nat) (args : List Int) :
+    (callStepR i (some r) args).1.steps = i.steps + 1 ∧ callStepR i none args = callStep i args ∧
+    (callStepR i (some r) args).2.1 <+: (callStep i args).2.1 ∧
+    (∀ e ∈ (callStepR i (some r) args).2.1, e.steps = i.steps + 1) ∧
+    ((∀ e ∈ (callStep i args).2.1, e.depth ≠ r) → callStepR i (some r) args = callStep i args) ∧
+    (∀ pre e post, (callStep i args).2.1 = pre ++ e :: post → e.depth = r → (∀ x ∈ pre, x.depth ≠ r) →
+      (callStepR i (some r) args).2.1 = pre ++ [e] ∧ (callStepR i (some r) args).2.2 = false) := by
+  have hpre : (callStepR i (some r) args).2.1 <+: (callStep i args).2.1 := cutAt_prefix _ _
+  refine ⟨rfl, rfl, hpre, fun e he => runChain_steps _ _ _ _ e (hpre.subset he), fun hno => ?_, fun pre e post hfull he hp => ?_⟩
+  · have hany : (runChain i.hier 0 args (i.steps + 1)).1.any (·.depth == r) = false := by
+      rw [List.any_eq_false]
+      intro e hin
+      simpa using hno e hin
+    simp [callStepR, callStep, cutAt, hany]
+  · have hfull' : (runChain i.hier 0 args (i.steps + 1)).1 = pre ++ e :: post := hfull
+    have hany : (runChain i.hier 0 args (i.steps + 1)).1.any (·.depth == r) = true := by
+      rw [hfull', List.any_eq_true]
+      exact ⟨e, by simp, by simpa using he⟩
+    have h1 : cutAt (some r) (runChain i.hier 0 args (i.steps + 1)) = (pre ++ [e], false) := by
+      simp only [cutAt, hany, if_true]
+      rw [hfull', takeThrough_split r pre e post he hp]
+    exact ⟨by show (cutAt (some r) _).1 = _; rw [h1], by show (cutAt (some r) _).2 = _; rw [h1]⟩
+
+/-- non-vacuity: three levels all calling super, the middle one raises: bodies 0 and 1 run, body 2 does not, the counter moved;
+    a raiser the chain never reaches (level 0 does not call super) changes nothing -/
+example : callStepR (Inst.new [⟨true, true, false⟩, ⟨true, true, false⟩, ⟨true, false, false⟩] 9) (some 1) [] =
+    ({ (Inst.new [⟨true, true, false⟩, ⟨true, true, false⟩, ⟨true, false, false⟩] 9) with steps := 1, execs := 2 },
+      [⟨0, 1, []⟩, ⟨1, 1, []⟩], false) ∧
+    callStepR (Inst.new [⟨true, false, false⟩, ⟨true, true, false⟩] 9) (some 1) [] =
+      callStep (Inst.new [⟨true, false, false⟩, ⟨true, true, false⟩] 9) [] := by decide
+
 /-- A call without arguments never raises, and if some level defines `step` the most derived
     such level runs first (inherited from an intermediate base class or overridden directly). -/
 theorem C05_most_derived_override_runs_first (i : Inst) :
@@ -196,13 +237,17 @@ theorem C05_run_model_exact (f : Nat) (i i' : Inst) (es : List Entry) (h : runMo
   exact ⟨k, h1, h2, h3, by rw [h1, stepN_steps]⟩
 
 /-- `run_model` is nothing but `k` ordinary `step()` calls made one after the other: the final state is that of `k` calls, the
-    records it leaves are the records of those `k` calls in order (the j-th call's bodies see `steps + j`), `running` was true
+    records it leaves are the records of those `k` calls in order, call by call (the bodies of call number `j`, counted from 0, all see
+    `steps + j + 1`), `running` was true
     before each call and is false after the last, and the counter advanced by exactly `k`. -/
 theorem C05_run_model_is_k_step_calls (f : Nat) (i i' : Inst) (es : List Entry) (h : runModel f i = some (i', es)) :
     ∃ k, i' = stepN k i ∧ es = entriesN k i ∧ i'.running = false ∧ (∀ j, j < k → (stepN j i).running = true) ∧
-      i'.steps = i.steps + k ∧ ∀ e ∈ es, i.steps + 1 ≤ e.steps ∧ e.steps ≤ i.steps + k := by
+      i'.steps = i.steps + k ∧ (∀ e ∈ es, i.steps + 1 ≤ e.steps ∧ e.steps ≤ i.steps + k) ∧
+      es = (List.range k).flatMap (fun j => (callStep (stepN j i) []).2.1) ∧
+      ∀ j, j < k → ∀ e ∈ (callStep (stepN j i) []).2.1, e.steps = i.steps + j + 1 := by
   obtain ⟨k, h1, h1e, h2, h3⟩ := runModel_entries f i i' es h
-  exact ⟨k, h1, h1e, h2, h3, by rw [h1, stepN_steps], by rw [h1e]; exact entriesN_steps k i⟩
+  exact ⟨k, h1, h1e, h2, h3, by rw [h1, stepN_steps], by rw [h1e]; exact entriesN_steps k i,
+    by rw [h1e]; exact entriesN_eq_flatMap k i, fun j _ => callStep_stepN_steps j i⟩
 
 example : runModel 10 (Inst.new [⟨true, false, false⟩] 3) =
     some (stepN 3 (Inst.new [⟨true, false, false⟩] 3), [⟨0, 1, []⟩, ⟨0, 2, []⟩, ⟨0, 3, []⟩]) := by decide
@@ -240,34 +285,45 @@ theorem C05_all_interleavings_count (ops : List Op) (hnr : ∀ op ∈ ops, op.is
       rw [this, h1]
       cases hs : op.isStepOn j <;> simp [hs] <;> omega
 
-/-- **The history of one model is its own operations** (all interleavings, `run_model` included): what instance `j` is after
-    any interleaving of `step` / `run_model` / re-arm / halt operations on any number of coexisting instances is what it
-    would be had only the operations on `j` been performed, in the same order — the operations on other models, however
-    many and wherever interleaved, are invisible to it (counter, `running`, stop rule and all). -/
-theorem C05_instance_history_is_its_own_ops (ops : List Op) (w : List Inst) (j : Nat) :
+/-- **The history of one model is its own operations** (all interleavings, `run_model` included; review 3, M17: only
+    histories in which every `run_model` call *returns* are spoken about — `allReturn`; a `run_model` that would not come back
+    is not counted as a no-op): in such a history, what instance `j` is at the end is what it would be had only the
+    operations on `j` been performed, in the same order — and in that shorter history every call returns, too.  The operations
+    on other models, however many and wherever interleaved, are invisible to it (counter, `running`, stop rule and all). -/
+theorem C05_instance_history_is_its_own_ops (ops : List Op) (w : List Inst) (j : Nat) (hret : allReturn w ops = true) :
+    allReturn w (ops.filter (fun op => op.target == j)) = true ∧
     (run w ops)[j]? = (run w (ops.filter (fun op => op.target == j)))[j]? := by
-  have key : ∀ (ops : List Op) (w w' : List Inst), w[j]? = w'[j]? →
+  have key : ∀ (ops : List Op) (w w' : List Inst), w[j]? = w'[j]? → allReturn w ops = true →
+      allReturn w' (ops.filter (fun op => op.target == j)) = true ∧
       (run w ops)[j]? = (run w' (ops.filter (fun op => op.target == j)))[j]? := by
     intro ops
     induction ops with
-    | nil => intro w w' h; simpa [run] using h
+    | nil => intro w w' h _; exact ⟨rfl, by simpa [run] using h⟩
     | cons op ops ih =>
-      intro w w' h
+      intro w w' h hr
+      simp only [allReturn, Bool.and_eq_true] at hr
       by_cases ht : op.target = j
       · have hf : (op :: ops).filter (fun op => op.target == j) = op :: ops.filter (fun op => op.target == j) := by
           simp [ht]
         rw [hf]
-        simp only [run, List.foldl_cons]
-        apply ih
         subst ht
-        exact apply_local w w' op h
+        have hstep := apply_local w w' op h
+        obtain ⟨h1, h2⟩ := ih (apply w op) (apply w' op) hstep hr.2
+        refine ⟨?_, ?_⟩
+        · simp only [allReturn, Bool.and_eq_true]
+          exact ⟨by rw [← returns_local w w' op h]; exact hr.1, h1⟩
+        · simpa only [run, List.foldl_cons] using h2
       · have hf : (op :: ops).filter (fun op => op.target == j) = ops.filter (fun op => op.target == j) := by
           simp [ht]
         rw [hf]
-        simp only [run, List.foldl_cons]
-        apply ih
-        rw [apply_frame w op j ht]; exact h
-  exact key ops w w rfl
+        have := ih (apply w op) w' (by rw [apply_frame w op j ht]; exact h) hr.2
+        simpa only [run, List.foldl_cons] using this
+  exact key ops w w rfl hret
+
+/-- a `run_model` on a model whose step never stops it does not return within any fuel given: such a history is not `allReturn` -/
+example : allReturn [Inst.new [⟨true, false, false⟩] 100] [.run 0 3] = false ∧
+    allReturn [Inst.new [⟨true, false, false⟩] 2, Inst.new [] 9] [.step 0 [], .step 1 [], .run 0 5, .step 1 [3], .halt 1, .step 0 []] = true := by
+  decide
 
 example : (run [Inst.new [⟨true, false, false⟩] 2, Inst.new [] 9] [.step 0 [], .step 1 [], .run 0 5, .step 1 [3], .halt 1, .step 0 []])[0]?.map
     (fun i => (i.steps, i.running)) = some (3, false) := by decide
